@@ -25,6 +25,14 @@ CHECKS["C11"] = ("E4-histx", "model_checking",
   "Explicit-state BFS (depth 5, thorough 6+) over the histories of one real FullKV per policy/value type: apply block / undo with recorded deltas / merge partial / save+load, states deduplicated on content+size+reversible stack, invariant SizeBytes()==sum(len k+len v) in every state; plus exhaustive squash-chain and 12-byte-limit sweeps. Every transition is a call into the real store.",
   "Menu of 4 blocks and 3 partials per combo; merges clear the reversible stack; limit sweep on canonical encodings only.",
   "explicit-state breadth-first search over store histories on the real implementation + bounded exhaustive sweeps", "2.4 E4, 3/C11")
+CHECKS["C10"] = ("E1-enum", "exploration",
+  "Bounded-exhaustive: every store content of <=2 (thorough 3) entries over binary key/value alphabets x every deleted-prefix list, written through the real host interface, saved and reloaded as FullKV and PartialKV; boundary sizes; every (start,end,kind,below) over a boundary set of block numbers up to 10 digits and every subset of 8 saved files through the real ListSnapshotFiles.",
+  "parseFileName is private: the name->range parse is judged through ListSnapshotFiles on a local dstore; most contents go through an in-memory dstore.",
+  "bounded exhaustive enumeration of contents, names and snapshot sets on the real save/load/list code", "3/C10")
+CHECKS["C18"] = ("E1-enum", "exploration",
+  "Bounded-exhaustive cross-decoder check: every exec-out map of <=3 items over boundary field values and every store content of <=3 entries over boundary lengths, encoded by the hand-written encoders and decoded by google.golang.org/protobuf (and vice versa), plus self round-trips of all four store marshallers and the size reported on load.",
+  "Trusts google.golang.org/protobuf as the wire-format reference.",
+  "bounded exhaustive enumeration, differential between hand-written and generated/standard codecs", "3/C18")
 PENDING = {}
 def main():
     checks = []
